@@ -4,6 +4,7 @@ package ptracer
 
 import (
 	"sync/atomic"
+	"syscall"
 
 	unix "golang.org/x/sys/unix"
 )
@@ -28,6 +29,15 @@ func vhWait4(pid int, ws *unix.WaitStatus, opt int, ru *unix.Rusage) (int, error
 	p, err := unix.Wait4(pid, ws, opt, ru)
 	if h := vAfterWait.Load(); h != nil && err == nil && ws != nil {
 		(*h)(p, *ws)
+	}
+	return p, err
+}
+
+// vhWait4s: the same hook for code that waits through package syscall.
+func vhWait4s(pid int, ws *syscall.WaitStatus, opt int, ru *syscall.Rusage) (int, error) {
+	p, err := syscall.Wait4(pid, ws, opt, ru)
+	if h := vAfterWait.Load(); h != nil && err == nil && ws != nil {
+		(*h)(p, unix.WaitStatus(*ws))
 	}
 	return p, err
 }
